@@ -128,7 +128,7 @@ def gen (j : Json) : Except String Json := do
       pure ({ canonical := (← str d "canonical").toList, fileid := fid, title := (← str d "title").toList,
               htmlId := (← str d "html_id").toList } : LocalDef))
     pure (key.toList, defs))
-  let g := generateInventory ds
+  let g := generateInventory P ds
   let back := match g with
     | none => none
     | some d => match dumps idCodec "verif".toList [] d with
